@@ -897,6 +897,38 @@ func runC11(prop string, res *Result, pool *DrvPool, r *Rng) {
 			res.Count("buffer-length-lines")
 		}
 	}
+	// a dump followed by k empty lines and more text: the empty line right after the last goroutine
+	// may still belong to the dump, the second one cannot - the snapshot is due once it has been
+	// delivered, whatever follows (or does not follow) it
+	for k := 1; k <= 4; k++ {
+		for _, eol := range []string{"\n", "\r\n"} {
+			for variant := 0; variant < 3; variant++ {
+				junk := "some text before" + eol
+				dump := "goroutine 1 [running]:" + eol + "main.f(0x1)" + eol + "\t/a/b.go:12 +0x1" + eol
+				if variant == 1 {
+					dump += eol + "goroutine 7 [select]:" + eol + "main.g()" + eol + "\t/a/c.go:3 +0x2" + eol
+				}
+				tail := "text after the dump" + eol + "more" + eol
+				input := junk + dump + strings.Repeat(eol, k) + tail
+				termEnd := len(junk) + len(dump) + 2*len(eol)
+				if k == 1 {
+					termEnd = len(junk) + len(dump) + len(eol) + len("text after the dump"+eol)
+				}
+				var sched []int
+				switch variant {
+				case 0, 1: // byte by byte
+					sched = make([]int, len(input))
+					for j := range sched {
+						sched[j] = 1
+					}
+				default: // everything up to and including the deciding line at once, then a pause
+					sched = []int{termEnd, len(input) - termEnd}
+				}
+				runCase(1, input, junk, termEnd, sched)
+				res.Count("dump-then-empty-lines")
+			}
+		}
+	}
 	n := countN(res.Tier, 1500, 40000)
 	for i := 0; i < n; i++ {
 		segs := genSegments(r, r.Intn(2))
